@@ -405,6 +405,38 @@ def check_asm(rep, V):
     provenance.check_undef(rep, {'igzip_decode'}, 'INFLATE', 2)
 
 
+def check_codelen_end(rep, mod):
+    """setup_dynamic_header reads HLIT+HDIST code lengths with a cursor that the repeat codes 17/18 advance without a bound; RFC 1951 requires a
+    header whose repeats run past the announced count to be rejected.  Difference bounds to `end` (ENDDIST): where the code lengths are turned
+    into tables the cursor is provably <= end, from a comparison of the FINAL cursor with end that dominates that point."""
+    import enddist
+    R = rep.rule('R-CODELEN-END', 'setup_dynamic_header: at every use of the decoded lit/len + distance code lengths after the reading loop (set_codes / make_inflate_huff_code_*), the reading cursor is bounded by the '
+                 'announced end (cursor - end <= 0 by a dominating comparison of the loop-carried cursor itself, not of a pre-advance value): a repeat code that runs past HLIT+HDIST is rejected', floor=3, unit='uses')
+    f = mod.funcs.get('setup_dynamic_header')
+    if f is None:
+        raise AnalysisBroken('setup_dynamic_header not found')
+    P = irrules.prov(mod, f)
+    loops = [i for i in f.all_insns() if i.op == 'icmp' and (i.ty or '').endswith('*') and i.extra['pred'] == 'ult' and f.defs.get(i.ops[0]) is not None and f.defs[i.ops[0]].op == 'phi'
+             and f.defs[i.ops[0]].block == i.block and any(a[0] == 'alloca' for a in P.atoms(i.ops[1]))]
+    if len(loops) != 1:
+        raise AnalysisBroken('setup_dynamic_header: expected one `while (cursor < end)` over a local array, found %d' % len(loops))
+    cur, end = loops[0].ops
+    arr = {a[1] for a in P.atoms(end) if a[0] == 'alloca'}
+    ed = enddist.EndDist(mod, f, end)
+    root, off0 = ed.ptr_lin(end)
+    if root != end:
+        ed.D[root] = -off0
+    uses = [i for i in f.all_insns() if i.op == 'call' and re.sub(r'\.\d+$', '', i.callee or '') in ('set_codes', 'make_inflate_huff_code_lit_len', 'make_inflate_huff_code_dist')
+            and any(a[0] == 'alloca' and a[1] in arr for _, v in i.args for a in P.atoms(v)) and f.dominates(loops[0].block, i.block)]
+    if len(uses) < 2:
+        raise AnalysisBroken('setup_dynamic_header: table-building calls on the code-length array not found')
+    for u in uses:
+        R.instance()
+        d = ed.d_eff(cur, u.block)
+        R.check(d is not None and d <= 0, mod.where(f, u), 'the code lengths are used although the reading cursor is only known to satisfy cursor - end <= %s here: a header whose repeat code (16/17/18) runs past HLIT+HDIST entries is accepted' %
+                ('unbounded' if d is None else d), key='R-CODELEN-END|%s' % re.sub(r'\.\d+$', '', u.callee), sample='%s: cursor <= end' % u.callee)
+
+
 def main(tier):
     rep = Report('C06', tier, level='other')
     rep.undecided = UNDECIDED
@@ -418,4 +450,5 @@ def main(tier):
     check_overflow_needs_buffer(rep, mod)
     check_asm(rep, V)
     check_array_fills(rep, mod)
+    check_codelen_end(rep, mod)
     return rep.finish()
